@@ -74,7 +74,7 @@ class Calc(object):
         elif p[2] == '*':
             p[0] = p[1] * p[3]
         elif p[2] == '/':
-            p[0] = p[1] / p[3]
+            p[0] = p[1] // p[3]
         elif p[2] == '<<':
             p[0] = p[1] << p[3]
         elif p[2] == '>>':
